@@ -4,8 +4,10 @@ set -e
 cd "$(dirname "$0")"
 export GOFLAGS=-mod=mod GOPROXY=off GOSUMDB=off GOTOOLCHAIN=local CGO_ENABLED=0
 mkdir -p bin evidence replays
-cp /repo/go.sum harness/go.sum
+REPO="${LAL_REPO:-/repo}"
+cp "$REPO/go.sum" harness/go.sum
+if [ "$REPO" != /repo ]; then (cd harness && go mod edit -replace github.com/q191201771/lal="$REPO"); fi
 (cd harness && go build -tags verif -o ../bin/harness .)
-./bin/harness -prop extract -gendir lean/LalModel/Generated -repo /repo
+./bin/harness -prop extract -gendir lean/LalModel/Generated -repo "$REPO"
 (cd lean && lake build)
 echo setup-ok
